@@ -1039,6 +1039,22 @@ static void mode_step(const Case &c) {
     extra.insert({"__standards__", 2});
     extra.insert({"none", -1});
     probe.insert(extra.begin(), extra.end());
+    OUT += ',';
+    jkey("avail_api");
+    OUT += '[';
+    {
+      bool f0 = true;
+      for (auto &b : cr.code.getAvailableBreakpoints()) {
+        if (!f0) OUT += ',';
+        f0 = false;
+        OUT += '[';
+        jstr(b.file);
+        OUT += ',';
+        jint(b.line);
+        OUT += ']';
+      }
+    }
+    OUT += ']';
     VM fresh(cr.code);
     OUT += ',';
     jkey("enable");
